@@ -89,11 +89,23 @@ def main():
         if any(f.endswith(".go") and (f.startswith("pkg/transports") or f.startswith("pkg/station/lib")) for f in touched):
             rc, out = sh("go test -vet=off -count=1 ./internal/... 2>&1 | grep -E '^(ok|FAIL|---|panic)' | head", cwd=mut, timeout=900)
             tests["internal"] = out.strip()
+        # fixed-port tests (ZMQ 39000, …) collide with other users of the machine: re-run a failing group once
+        def run_group(key):
+            if key.startswith("root:"):
+                return sh("go test -vet=off -count=1 " + key[5:] + " 2>&1 | grep -E '^(ok|FAIL|---|panic)' | head -30", cwd=mut, timeout=1500)[1].strip()
+            if key == "cmd/application":
+                return sh("go test -vet=off -count=1 . 2>&1 | grep -E '^(ok|FAIL|---|panic)' | head", cwd=os.path.join(mut, "cmd/application"), timeout=900)[1].strip()
+            return sh("go test -vet=off -count=1 ./internal/... 2>&1 | grep -E '^(ok|FAIL|---|panic)' | head", cwd=mut, timeout=900)[1].strip()
+        def group_bad(v):
+            return any((l.startswith("--- FAIL") and "TestConjureLibConfigResolveBlocklisted" not in l) or l.startswith("panic") or (l.startswith("FAIL") and "pkg/station/lib" not in l and l.strip() != "FAIL") for l in v.splitlines())
+        for k in list(tests):
+            if group_bad(tests[k]):
+                tests[k + " (re-run)"] = run_group(k)
+                tests[k + " (first run, superseded)"] = tests.pop(k)
         conf["existing_tests"] = tests
         bad = [l for v in tests.values() for l in v.splitlines() if l.startswith(("--- FAIL", "FAIL", "panic")) and "TestConjureLibConfigResolveBlocklisted" not in l and "pkg/station/lib" not in l.replace("--- FAIL", "")]
         # the lib package always reports FAIL because of the DNS test; look at individual tests instead
-        failing_tests = [l for v in tests.values() for l in v.splitlines() if l.startswith("--- FAIL") and "TestConjureLibConfigResolveBlocklisted" not in l]
-        conf["existing_tests_pass"] = len(failing_tests) == 0 and not any(l.startswith("panic") for v in tests.values() for l in v.splitlines())
+        conf["existing_tests_pass"] = not any(group_bad(v) for k, v in tests.items() if "superseded" not in k)
         # demo
         demo_dir = os.path.join(dst, "demo")
         readme = ""
@@ -105,6 +117,21 @@ def main():
             n = 0
             for fn in os.listdir(demo_dir):
                 if fn == "README.txt":
+                    continue
+                if os.path.isdir(os.path.join(demo_dir, fn)):
+                    # a sub-tree: mirrors the repository layout (pkg/…, internal/…, cmd/…) or names a package dir
+                    for dp, _, fns in os.walk(os.path.join(demo_dir, fn)):
+                        for f2 in fns:
+                            rel = os.path.relpath(os.path.join(dp, f2), demo_dir)
+                            if rel.split(os.sep)[0] in ("pkg", "internal", "cmd", "proto", "util"):
+                                target = os.path.join(root, rel)
+                            else:
+                                cands = re.findall(r"((?:pkg|internal|cmd)/[\w./-]*/)" + re.escape(f2), readme + " " + json.dumps(meta))
+                                pick = [c for c in cands if c.rstrip("/").endswith(fn)] or cands
+                                target = os.path.join(root, pick[0] if pick else "", f2)
+                            os.makedirs(os.path.dirname(target), exist_ok=True)
+                            shutil.copy(os.path.join(dp, f2), target)
+                            n += 1
                     continue
                 # destination: a path mentioned in README/meta ending with the file name
                 m = re.search(r"([\w./-]*/)" + re.escape(fn), readme + " " + json.dumps(meta))
